@@ -83,6 +83,9 @@ def cmd_run(a):
     wall_batch = time.time() - t0
     if out["done"] == 0:
         raise boot.HarnessError("no run completed")
+    incon = out["agg"].get("timeouts", 0) + out["agg"].get("setup_errors", 0)
+    if incon > 0.5 * out["done"] and not out["violations"]:
+        raise boot.HarnessError(f"{incon} of {out['done']} scenarios were inconclusive (timeouts / set-up errors): nothing can be concluded")
     # determinism cross-check on a sample, in a fresh interpreter with another hash seed / worker count
     sample = sorted(out["digests"])[:: max(1, len(out["digests"]) // (24 if tier == "quick" else 96))][:128]
     xc = engine.cross_check(a.prop, tier, batch_seed, ns.repo_root, sample, out["digests"], opts)
@@ -143,6 +146,9 @@ def cmd_run(a):
     ev = mod.evidence(out, tier=tier, seed=batch_seed, wall=wall, wall_batch=wall_batch, cross=xc,
                       known_hits={fp: n for fp, (kf, n) in known_hits.items()},
                       violations=sum(len(x) for x in reported.values()), workers=workers, ns=ns)
+    if incon:
+        ev["coverage"].setdefault("warnings", []).append(
+            f"{incon} scenario(s) were inconclusive (wall limit or set-up error on this tree) and count neither as pass nor as violation")
     if hyp_out is not None:
         ev["coverage"]["hypothesis_second_strategy"] = {
             "sessions": hyp_out["sessions"], "examples": hyp_out["examples"], "failing_sessions": len(hyp_out["failures"]),
